@@ -6,6 +6,7 @@ critical section a store look-up for the caller's stream dominates the wire read
 not the caller's is parked under its own (arg0, arg1) (KIND + ARG), and every path through the store's put()
 enqueues it (no-drop); matched packets are returned as read.  Not decided: enumeration of schedules, "same result
 as alone".
+Also: the deadline rules of C11 for the pump and the read loops ("every operation completes" while other streams keep the wire busy).
 """
 import ast
 
